@@ -96,7 +96,11 @@ func view(r *sysRun) *runView {
 			v.ops = append(v.ops, opRec{T: st.T, Kind: st.Op, R: nrpc, Start: i, End: -1})
 			cur[st.T] = len(v.ops) - 1
 		case "op":
-			o := opRec{T: st.T, Kind: st.Op, R: st.R, Start: i, End: -1}
+			kind := st.Op
+			if kind == "RecvRaw" { // RawRecv: a receive like MsgRecv as far as the monitors are concerned
+				kind = "Recv"
+			}
+			o := opRec{T: st.T, Kind: kind, R: st.R, Start: i, End: -1}
 			if st.Op == "Send1" || st.Op == "Send2" {
 				o.Tag = fmt.Sprintf("%d.%d", st.R, nst)
 				o.Frames = 1
